@@ -88,10 +88,25 @@ def specDisplay (k : K) (s : Str) : Bool :=
 def specRoundTrip (k : K) (id : Bytes) (as : Option K) (o : Obs) : Bool :=
   if as == none || as == some k then o == .ok k id else o == .err
 
+/-- the five bits of a bech32 value, most significant first -/
+def bits5 (v : Nat) : List Nat := [v / 16 % 2, v / 8 % 2, v / 4 % 2, v / 2 % 2, v % 2]
+
+/-- complete groups of eight bits as bytes (an incomplete trailing group is dropped) -/
+def bytesOfBits : List Nat → List Nat
+  | b0 :: b1 :: b2 :: b3 :: b4 :: b5 :: b6 :: b7 :: rest =>
+    (b0 * 128 + b1 * 64 + b2 * 32 + b3 * 16 + b4 * 8 + b5 * 4 + b6 * 2 + b7) :: bytesOfBits rest
+  | _ => []
+
+/-- the payload bytes of a sequence of 5-bit values: BIP-173's 5→8 bit regrouping (bit string of
+    the values cut into bytes) -/
+def regroup8 (vals : List Nat) : List Nat := bytesOfBits (vals.flatMap bits5)
+
 /-- "parsing rejects other prefixes, bad checksums and wrong lengths" (and wrong kinds): whatever
     is ACCEPTED is, literally, `prefix-of-its-kind ++ "1" ++ data` where `data` consists of bech32
     characters, carries a valid checksum over (prefix, data), and holds exactly 20 bytes
-    (`⌊5·(|data| − 6)/8⌋ = 20`); a typed parser only accepts its own kind. -/
+    (`⌊5·(|data| − 6)/8⌋ = 20`); the returned id is EXACTLY the 8-bit regrouping of the payload
+    characters (data without the six checksum characters); a typed parser only accepts its own
+    kind. -/
 def specParse (as : Option K) (s : Str) (o : Obs) : Bool :=
   match o with
   | .err => true
@@ -103,7 +118,8 @@ def specParse (as : Option K) (s : Str) (o : Obs) : Bool :=
     s.take p.length == p && (s.drop p.length).head? == some 49 &&
     d.all isBech32Char &&
     6 ≤ d.length && checksumOK p d &&
-    5 * (d.length - 6) / 8 == 20
+    5 * (d.length - 6) / 8 == 20 &&
+    id == (regroup8 ((d.take (d.length - 6)).map charValue)).map UInt8.ofNat
 
 /-- shape of a displayed address of kind `k` -/
 def displayed (k : K) (s : Str) : Bool :=
